@@ -649,6 +649,41 @@ func ruleTSEEALL(p *Program, r *Reporter) {
 		r.Ob(id, funcName(g), "row state includes earlier rounds", g.Pos(), fresh, true,
 			ifs(fresh, fmt.Sprintf("consults %v, of which at least one is brought up to date inside the loop of processReferencesLoop", consulted), fmt.Sprintf("consults only %v, none of which is assigned inside the loop of processReferencesLoop: a second round of reference clean-up on the same row starts from the row as it was before the first round and undoes it (dangling weak reference committed, notifications disagree with the database)", consulted)))
 	}
+	// order: where one function consults both a field that is brought up to date inside
+	// the loop and one that is not (the transaction's own updates), the up-to-date one
+	// is looked at first — otherwise a row that reference processing already changed
+	// is read back as the transaction left it
+	for _, name := range []string{"getModel", "getRow"} {
+		g := p.Fn("updates", "referenceTracker", name)
+		if g == nil {
+			continue
+		}
+		var freshAt, staleAt []*ssa.FieldAddr
+		for _, b := range g.Blocks {
+			for _, ins := range b.Instrs {
+				if fa, ok := ins.(*ssa.FieldAddr); ok && isMUField(fieldOfAddr(fa)) {
+					if assignedInLoop[fieldOfAddr(fa)] {
+						freshAt = append(freshAt, fa)
+					} else {
+						staleAt = append(staleAt, fa)
+					}
+				}
+			}
+		}
+		if len(freshAt) == 0 || len(staleAt) == 0 {
+			continue
+		}
+		for _, st := range staleAt {
+			okO := false
+			for _, fr := range freshAt {
+				if (fr.Block() == st.Block() && instrBefore(fr, st)) || (fr.Block() != st.Block() && fr.Block().Dominates(st.Block())) {
+					okO = true
+				}
+			}
+			r.Ob(id, funcName(g), "most recent version first: "+fieldOfAddr(st).Name(), st.Pos(), okO, true,
+				ifs(okO, "the updates accumulated by reference processing are consulted before the transaction's own", "the transaction's own updates ("+fieldOfAddr(st).Name()+") are consulted before the ones reference processing keeps up to date: a row changed in an earlier round is read back as the transaction left it (the second change is computed from a stale row)"))
+		}
+	}
 	_ = rtT
 	if n < 2 {
 		r.Anchor(id, "referenceTracker.getModel / getRow")
